@@ -1807,6 +1807,97 @@ def _map_to_comprehension(mods: dict[str, Module], log: list[str]) -> None:
         log.append(f"{n} map(f, xs) call(s) read as generators")
 
 
+def _mirror_induction_attr(mods: dict[str, Module], inv: dict, log: list[str]) -> None:
+    """`for v in range(S, E): BODY; self.A = v + 1` with S the value of `self.A` on entry (read in place, or through a local snapshot nothing stores past) keeps
+    `v == self.A` at every point of BODY: the loop is `for _ in range(E - self.A): BODY[v := self.A]; self.A += 1` - the counter the reference tree advances."""
+    fw = _Forward(mods, inv, [])
+    n = 0
+    for mod in mods.values():
+        for q, _, fn in _functions_of(mod):
+            loops = [x for x in ast.walk(fn) if isinstance(x, ast.For)]
+            for lp in loops:
+                if any(lp is not o and any(y is lp for y in ast.walk(o)) for o in [x for x in ast.walk(fn) if isinstance(x, (ast.For, ast.While))]):
+                    continue
+                it = lp.iter
+                if not (isinstance(lp.target, ast.Name) and not lp.orelse and isinstance(it, ast.Call) and isinstance(it.func, ast.Name) and it.func.id == "range" and len(it.args) == 2 and not it.keywords
+                        and lp.body):
+                    continue
+                v = lp.target.id
+                ks = [k for k, st in enumerate(lp.body) if isinstance(st, ast.Assign) and len(st.targets) == 1 and isinstance(st.targets[0], ast.Attribute)
+                      and isinstance(st.targets[0].value, ast.Name) and ast.unparse(st.value) in (f"{v} + 1", f"1 + {v}")]
+                if len(ks) != 1:
+                    continue
+                kpos = ks[0]
+                last = lp.body[kpos]
+                attr = last.targets[0]
+                atxt = ast.unparse(attr)
+                A = attr.attr
+                if any(fw._kills(st, {v}, {A}) for k, st in enumerate(lp.body) if k != kpos) or any(isinstance(x, ast.Continue) for x in ast.walk(lp)):
+                    continue
+                if any(isinstance(x, ast.Name) and x.id == v for st in lp.body[kpos + 1:] for x in ast.walk(st)):
+                    continue
+                if any(isinstance(x, ast.Name) and x.id == v and not any(x is y for y in ast.walk(lp)) for x in ast.walk(fn)):
+                    continue
+                S, E = it.args
+                snap = None
+                if ast.unparse(S) == atxt:
+                    pass
+                elif isinstance(S, ast.Name):
+                    defs = [x for x in ast.walk(fn) if isinstance(x, (ast.Assign, ast.AnnAssign)) and x.value is not None
+                            and any(isinstance(t, ast.Name) and t.id == S.id for t in (x.targets if isinstance(x, ast.Assign) else [x.target]))]
+                    stores = [x for x in ast.walk(fn) if isinstance(x, ast.Name) and x.id == S.id and isinstance(x.ctx, (ast.Store, ast.Del))]
+                    if len(defs) != 1 or len(stores) != 1 or ast.unparse(defs[0].value) != atxt or defs[0].lineno >= lp.lineno:
+                        continue
+                    d = defs[0]
+                    between = [x for x in ast.walk(fn) if d.end_lineno < getattr(x, "lineno", 0) < lp.lineno]
+                    killed = False
+                    for x in between:
+                        if isinstance(x, ast.Attribute) and isinstance(x.ctx, (ast.Store, ast.Del)) and x.attr == A:
+                            killed = True
+                        if isinstance(x, ast.Call) and isinstance(x.func, ast.Attribute) and A in fw.method_stores.get(x.func.attr, set()):
+                            killed = True
+                    uses = [x for x in ast.walk(fn) if isinstance(x, ast.Name) and x.id == S.id and isinstance(x.ctx, ast.Load)]
+                    if killed or any(not (d.end_lineno < u.lineno <= lp.lineno) or any(u is y for st in lp.body for y in ast.walk(st)) for u in uses):
+                        continue
+                    snap = (S.id, d)
+                else:
+                    continue
+                sub = _Subst({v: attr, **({snap[0]: attr} if snap else {})})
+                if snap:
+                    # every use of the snapshot lies before the loop body, where self.A still has the snapshot's value
+                    for blk_owner in ast.walk(fn):
+                        for fld in ("body", "orelse", "finalbody", "handlers"):
+                            lst = getattr(blk_owner, fld, None)
+                            if isinstance(lst, list) and any(x is snap[1] for x in lst):
+                                lst.remove(snap[1])
+                                if not lst:
+                                    lst.append(ast.copy_location(ast.Pass(), snap[1]))
+                    only_snap = _Subst({snap[0]: attr})
+                    for owner in ast.walk(fn):
+                        if owner is lp:
+                            continue
+                        for fld, val in ast.iter_fields(owner):
+                            if fld in ("body", "orelse", "finalbody", "handlers"):
+                                continue
+                            if isinstance(val, ast.expr) and getattr(val, "lineno", 10 ** 9) < lp.lineno and any(isinstance(x, ast.Name) and x.id == snap[0] for x in ast.walk(val)):
+                                setattr(owner, fld, only_snap.visit(val))
+                    E = only_snap.visit(E)
+                lp.body[:kpos] = [sub.visit(st) for st in lp.body[:kpos]]
+                lp.body[kpos] = ast.copy_location(ast.AugAssign(target=ast.Attribute(value=attr.value, attr=A, ctx=ast.Store()), op=ast.Add(), value=ast.Constant(value=1)), last)
+                count: ast.expr
+                if isinstance(E, ast.BinOp) and isinstance(E.op, ast.Add) and ast.unparse(E.left) == atxt:
+                    count = E.right
+                elif isinstance(E, ast.BinOp) and isinstance(E.op, ast.Add) and ast.unparse(E.right) == atxt:
+                    count = E.left
+                else:
+                    count = ast.BinOp(left=E, op=ast.Sub(), right=ast.Attribute(value=attr.value, attr=A, ctx=ast.Load()))
+                lp.target = ast.Name(id="_", ctx=ast.Store())
+                lp.iter = ast.Call(func=ast.Name(id="range", ctx=ast.Load()), args=[count], keywords=[])
+                ast.fix_missing_locations(fn)
+                n += 1
+                log.append(f"{mod.relpath}:{lp.lineno} {q}: induction variable `{v}` mirrors `{atxt}`; loop read as `for _ in range({ast.unparse(count)})` advancing the attribute")
+
+
 def _fromiter_to_array(mods: dict[str, Module], log: list[str]) -> None:
     """`np.fromiter(<generator>, dtype=D[, count=c])` consumes the generator where it stands and is `np.array([...], dtype=D)` (float64: `np.array([...])`);
     `list(<generator>)` likewise once a local generator has been substituted into it."""
@@ -3190,6 +3281,7 @@ def canonicalise(mods: dict[str, Module]) -> dict:
     _unroll_literal_comprehensions(mods, fwd_log)
     _static_attr_access(mods, fwd_log)
     _split_parallel_assign(mods, fwd_log)
+    _mirror_induction_attr(mods, inv, fwd_log)
     _Forward(mods, inv, fwd_log).run()
     _canonical_foreach(mods, fwd_log)
     _append_loops_to_comprehensions(mods, fwd_log)
